@@ -239,7 +239,7 @@ class Verifier(Engine):
                     continue
                 if fn == "let":
                     name = ast.literal_eval(ge.args[0])
-                    st.env[name] = self.ev1(ge.args[1], st)
+                    st.env[name] = self.named(st, self.ev1(ge.args[1], st), name)
                     continue
                 if fn == "when":
                     cnd = self.truth(st, self.ev1(ge.args[0], st))
@@ -376,7 +376,7 @@ class Verifier(Engine):
                 if ty is not None:
                     ty = parse_type(ty)
                     st.heap[v.ident] = VSeq(IS.empty, "ilist") if ty == "ilist" else VList(VS.empty, ty[1] if isinstance(ty, tuple) else "any")
-            st.env[tgt.id] = v
+            st.env[tgt.id] = self.named(st, v, tgt.id) if not self.spec_mode else v
             return [st]
         if isinstance(tgt, (ast.Tuple, ast.List)):
             v = self.deref(st, v)
